@@ -322,6 +322,71 @@ def _dyn_init():
         note="footer given by the caller (VHD.__init__ passes the one it read)")
 
 
+# ------------------------------------------------------------------------------------------------ footer location and disk-type dispatch
+class FooterModel(InitModel):
+    def __init__(self):
+        super().__init__()
+        self.globals["io"] = ObjV("io")
+        self.fields["io.SEEK_END"] = IntV(z3.IntVal(2))
+        self.fields["io.SEEK_SET"] = IntV(z3.IntVal(0))
+        self.fields["io.SEEK_CUR"] = IntV(z3.IntVal(1))
+
+
+def _read_footer():
+    """VHD specification 1.0, "Hard Disk Footer Format": the footer is the last 512 bytes of the file; images written before Microsoft
+    Virtual PC 2004 have a 511-byte footer.  The two are told apart by the reserved feature bit 0x2, which is always set in a footer."""
+    def post(eng, st, rv):
+        m = eng.model
+        if not isinstance(rv, ObjV) or rv.path not in getattr(m, "struct_pos", {}):
+            return [("returns_a_parsed_footer", z3.BoolVal(False))]
+        # SPEC: features is the big-endian uint32 at bytes 8..11 of the footer; bit 1 (0x2) is the reserved bit that is always 1
+        feat512 = be(lambda i: z3.Select(m.farr, i), m.fsize - 512 + 8, 4)
+        q, r, fact = ediv(feat512, z3.IntVal(2))
+        q2, r2, fact2 = ediv(q, z3.IntVal(2))
+        st.hyps += [fact, fact2]
+        return [("footer_is_the_last_512_bytes_when_its_reserved_bit_is_set_else_the_last_511", m.struct_pos[rv.path] == z3.If(r2 == 1, m.fsize - 512, m.fsize - 511)),
+                ("cost", st.ghost["io"] <= 2 * 512)]
+
+    return FnContract(FILE, "read_footer", ["C04", "C12", "C13", "C14"], FooterModel, params=lambda m: {"fh": FileV("fh")},
+                      requires=lambda m: m.hyps + [m.fsize >= 512], post=post,
+                      note="file contents and size symbolic; the structure size is the one computed by cstruct from c_vhd.py")
+
+
+class VhdInitModel(InitModel):
+    def __init__(self):
+        super().__init__()
+        self.global_calls["read_footer"] = lambda eng, st, args, node: (eng.pre(st, z3.BoolVal(isinstance(args[0], FileV) and args[0].name == "fh"), node, tag="footer_read_from_the_image"), ObjV("footer"))[1]
+        self.globals["FixedDisk"] = FuncRef_("FixedDisk")
+        self.globals["DynamicDisk"] = FuncRef_("DynamicDisk")
+        self.global_calls["FixedDisk"] = lambda eng, st, args, node: self.mk_disk(eng, st, "fixed", args, node)
+        self.global_calls["DynamicDisk"] = lambda eng, st, args, node: self.mk_disk(eng, st, "dynamic", args, node)
+        self.methods[("super", "__init__")] = lambda eng, st, args, node, **kw: (st.ghost.__setitem__("stream_size", args[0] if args else None), NoneV())[1]
+
+    def mk_disk(self, eng, st, kind, args, node):
+        ok = len(args) == 2 and isinstance(args[0], FileV) and args[0].name == "fh" and isinstance(args[1], ObjV) and args[1].path == "footer"
+        eng.pre(st, z3.BoolVal(ok), node, tag="disk_built_from_the_image_and_the_footer_that_was_read")
+        path = f"{kind}_disk!"
+        self.fields[f"{path}.size"] = self.fields["footer.current_size"]  # contract of Disk.__init__ / DynamicDisk.__init__ (post[size])
+        self.truthy[path] = z3.BoolVal(True)
+        return ObjV(path)
+
+
+def _vhd_init():
+    def post(eng, st, rv):
+        m = eng.model
+        disk = st.attrs.get("self.disk")
+        size = st.ghost.get("stream_size")
+        fixed = m.fields["footer.data_offset"].e == U64  # SPEC: "Data Offset ... for fixed disks, this field should be set to 0xFFFFFFFFFFFFFFFF"
+        is_fixed = z3.BoolVal(isinstance(disk, ObjV) and disk.path == "fixed_disk!")
+        is_dyn = z3.BoolVal(isinstance(disk, ObjV) and disk.path == "dynamic_disk!")
+        return [("fixed_disk_iff_data_offset_is_all_ones_else_dynamic", z3.And(z3.Implies(fixed, is_fixed), z3.Implies(z3.Not(fixed), is_dyn))),
+                ("stream_size_is_the_footer_current_size", eng.as_int(size, st, None) == m.fields["footer.current_size"].e if isinstance(size, IntV) else z3.BoolVal(False)),
+                ("image_handle_kept", z3.BoolVal(isinstance(st.attrs.get("self.fh"), FileV) and st.attrs["self.fh"].name == "fh"))]
+
+    return FnContract(FILE, "VHD.__init__", ["C04", "C14"], VhdInitModel, params=lambda m: {"self": ObjV("self"), "fh": FileV("fh")},
+                      requires=lambda m: m.hyps, post=post, note="footer fields symbolic; read_footer / FixedDisk / DynamicDisk by their contracts")
+
+
 replay = make_replay("vhd")
 bounded = make_bounded("vhd", "vhd.small_scope")
 
@@ -334,4 +399,4 @@ def trusted(pid):
 
 def contracts(repo):
     return [_dyn_read_sectors("functional"), _bat_get(), _bat_getitem(), _fixed_read_sectors(), _vhd_read(), _dyn_init(),
-            _dyn_read_sectors("termination")]
+            _dyn_read_sectors("termination"), _read_footer(), _vhd_init()]
